@@ -612,6 +612,42 @@ def subsecond(case, rng):
     return dict(case, t_ns=out)
 
 
+def rescale(case, rng):
+    """The same kind of case at another MAGNITUDE: data and value thresholds multiplied by a power of two (exact in float64 and
+    in the model's rationals), and — when scaled up — the data nudged by a few units, so that differences land within a relative
+    1e-6 of a threshold (or, scaled down, within an absolute 1e-9 of it).  On the small lattice every difference from a
+    threshold is either 0 or >= 1/8: a comparison made "tolerant" (np.isclose-style rtol / atol) is invisible there."""
+    fn = case["fn"]
+    if fn not in ("gross", "valid", "spike", "roc", "flat", "atten", "density", "pressure") or case.get("decimal_f32") \
+            or case.get("as_time") or case.get("decimal"):
+        return case
+    k = rng.choice([-30, -24, 17, 20, 24])
+    s = F(2) ** k
+    jitter = k > 0 and fn in ("gross", "valid", "spike", "flat", "density", "pressure") or (fn == "atten" and case.get("check_type") == "range" and k > 0)
+    c = dict(case)
+
+    def sc(v, j=False):
+        if v is None:
+            return None
+        return v * s + (rng.choice([0, 0, 1, -1, 2]) if j else 0)
+
+    def scseq(q):
+        return None if q is None else {**q, "vals": [sc(v) for v in q["vals"]]}
+    c["inp"] = [sc(v, jitter) for v in case["inp"]]
+    if fn == "gross":
+        c["fail"], c["suspect"] = scseq(case["fail"]), scseq(case.get("suspect"))
+    elif fn == "valid":
+        c["lo"], c["hi"] = sc(case.get("lo")), sc(case.get("hi"))
+    elif fn in ("spike", "atten", "density"):
+        c["sus"], c["fail"] = sc(case.get("sus")), sc(case.get("fail"))
+    elif fn == "roc":
+        c["thr"] = sc(case["thr"])
+    elif fn == "flat":
+        c["tol"] = sc(case["tol"])
+    c["rescaled"] = k
+    return c
+
+
 GENERATORS = {
     "gross": gen_gross, "valid": gen_valid, "location": gen_location, "climatology": gen_climatology,
     "spike": gen_spike, "roc": gen_roc, "flat": gen_flat, "atten": gen_atten, "density": gen_density,
